@@ -56,6 +56,36 @@ type PSp *S
 
 func mkPSp() PSp { return &S{A: 5} }
 
+type AnonS = struct {
+	A int
+	B string
+}
+type PI *int
+type MS map[string]int
+type SL []int
+
+var (
+	vS    S
+	vPS   *S
+	vPPS  **S
+	vAS   AS
+	vG    G[int]
+	vPG   *G[int]
+	vI    I
+	vInt  int
+	vPInt *int
+	vMap  MS
+	vArr  [2]S
+	vFn   func() *S
+	sName = "A"
+)
+
+func mkG() *G[int]       { return nil }
+func mkI() I             { return C{} }
+func mkPI() *I           { return nil }
+func idS(p *S) *S        { return p }
+func NewV() (v struct{}) { return }
+
 func two() (wire.ProviderSet, wire.ProviderSet) { return wire.NewSet(NewA), wire.NewSet() }
 func GenF[T any]() (z T)                        { return }
 
@@ -72,6 +102,7 @@ var (
 
 const K = 4
 const FieldA = "A"
+const iota0 = iota
 '''
 
 INJ = '''//go:build wireinject
@@ -210,6 +241,65 @@ def forms():
     return F
 
 
+def gen_forms(rng, n):
+    """Grammar-based spellings: pointer-valued first arguments of Struct / FieldsOf / Bind over a zoo of types and
+    expression shapes, field-name arguments, value expressions.  Only the C20 contract is expected of them; the ones
+    wire accepts are compiled (C01)."""
+    out = []
+    ptr_exprs = {          # expression -> pointee type text
+        "S": ["new(S)", "(new(S))", "&S{}", "&S{A: 1}", "(*S)(nil)", "vPS", "&vS", "mk()", "mk1(1)", "idS(new(S))", "*vPPS", "&vArr[0]", "vFn()", "(&vS)"],
+        "AS": ["new(AS)", "&AS{}", "&vAS", "(*AS)(nil)"],
+        "G[int]": ["new(G[int])", "&G[int]{}", "vPG", "&vG", "mkG()"],
+        "AnonS": ["new(AnonS)", "&AnonS{}", "new(struct {\n\tA int\n\tB string\n})"],
+        "*S": ["new(*S)", "&vPS", "vPPS", "new(PSp)"],
+        "I": ["new(I)", "&vI", "mkPI()"],
+        "int": ["new(int)", "&vInt", "vPInt", "new(PI)"],
+        "MS": ["new(MS)", "&vMap"],
+        "C": ["new(C)", "&C{}"],
+        "*C": ["new(*C)"],
+        "D": ["new(D)", "&D{}"],
+        "*D": ["new(*D)"],
+        "J": ["new(J)"],
+    }
+    names = ['"A"', '"B"', '"*"', '`A`', '"a"', '""', '"Z"', 'FieldA', 'sName', '"A" + ""', '"V"', '"A", "B"', '"B", "A"', '"A", "A"', '"*", "A"']
+    provs = "NewA, NewB"
+    for _ in range(n):
+        k = rng.choice(["struct", "struct", "fields", "fields", "bind", "value", "ifacevalue", "build"])
+        if k == "struct":
+            ty = rng.choice(["S", "S", "AS", "G[int]", "AnonS", "*S", "int", "I", "MS"])
+            e = rng.choice(ptr_exprs[ty]); nm = rng.choice(names)
+            res = rng.choice([ty, "*" + ty]) if ty not in ("*S",) else "S"
+            out.append({"name": "g-struct", "args": "wire.Struct(%s, %s), %s" % (e, nm, provs), "res": res})
+        elif k == "fields":
+            ty = rng.choice(["S", "S", "*S", "AS", "G[int]", "AnonS", "int", "I"])
+            e = rng.choice(ptr_exprs[ty]); nm = rng.choice(names)
+            src = {"S": "wire.Value(S{A: 1})", "*S": "mk", "AS": "wire.Value(AS{})", "G[int]": "wire.Value(G[int]{})", "AnonS": "wire.Value(AnonS{})", "int": "NewA", "I": "mkI"}[ty]
+            out.append({"name": "g-fields", "args": "wire.FieldsOf(%s, %s), %s" % (e, nm, src), "res": rng.choice(["int", "string", "*int", "*string"])})
+        elif k == "bind":
+            it = rng.choice(["I", "I", "J", "C", "int", "*S"]); ct = rng.choice(["C", "*C", "D", "*D", "S", "I", "J", "int"])
+            ie = rng.choice(ptr_exprs.get(it, ["new(%s)" % it])); ce = rng.choice(ptr_exprs.get(ct, ["new(%s)" % ct]))
+            src = {"C": "NewC", "*C": "wire.Value(&C{})", "D": "wire.Struct(new(D))", "*D": "wire.Struct(new(D))", "S": "wire.Value(S{})", "I": "mkI", "J": "wire.InterfaceValue(new(J), jimpl{})", "int": "NewA"}[ct]
+            out.append({"name": "g-bind", "args": "wire.Bind(%s, %s), %s" % (ie, ce, src), "res": it if it in ("I", "J") else "I"})
+        elif k == "value":
+            e, t = rng.choice([("vS", "S"), ("vS.A", "int"), ("&vS", "*S"), ("vArr[1]", "S"), ("vArr[1].B", "string"), ("[]int{1, 2}[0]", "int"), ("SL{1}", "SL"), ("MS{}", "MS"), ("vMap[\"k\"]", "int"),
+                               ("*vPInt", "int"), ("-vInt", "int"), ("vInt + K", "int"), ("K << 2", "int"), ("string(rune(K))", "string"), ("float64(vInt)", "float64"), ("(vS)", "S"), ("struct{}{}", "struct{}"),
+                               ("[2]int{}", "[2]int"), ("&vArr", "*[2]S"), ("vFn", "func() *S"), ("mk", "func() *S"), ("vI.(C)", "C"), ("vPS.A", "int"), ("(*vPS).B", "string"), ("unsafe.Sizeof(vS)", "uintptr"),
+                               ("len(vArr)", "int"), ("cap(Sl)", "int"), ("new(int)", "*int"), ("complex(1, 2)", "complex128"), ("real(complex(1, 2))", "float64"), ("vG.V", "int"), ("G[int]{V: 1}", "G[int]"),
+                               ("AS{}", "S"), ("AnonS{A: 1}", "AnonS"), ("func() {}", "func()"), ("Fn", "F"), ("F(nil)", "F"), ("IV", "I"), ("error(nil)", "error"), ("any(1)", "any")])
+            out.append({"name": "g-value", "args": "wire.Value(%s)" % e, "res": t})
+        elif k == "ifacevalue":
+            it = rng.choice(["I", "J", "any", "error", "C", "F"]); e = rng.choice(["C{}", "&C{}", "&D{}", "D{}", "jimpl{}", "IV", "JV", "vI", "nil", "mkI()", "1", "S{}", "(*D)(nil)", "I(C{})", "struct{ C }{}"])
+            out.append({"name": "g-ifacevalue", "args": "wire.InterfaceValue(new(%s), %s)" % (it, e), "res": it})
+        else:
+            e = rng.choice(["vS", "&vS", "vFn", "mk", "mk()", "NewV", "GA, GB", "(GA)", "PA", "wire.NewSet(wire.NewSet(), (NewA))", "wire.NewSet(SetV)", "SetV, SetV", "NewA, NewA", "S{}, NewB, NewA", "S{A: 1}", "&S{}, NewA, NewB",
+                            "AS{}, NewA, NewB", "G[int]{}", "C{}", "vS.A", "C.M", "(*D).M", "idS", "Holder", "struct{ S wire.ProviderSet }{}.S", "[]wire.ProviderSet{SetV}[0]", "func() wire.ProviderSet { return SetV }()",
+                            "wire.ProviderSet{}", "*new(wire.ProviderSet)", "NV", "unsafe.Pointer(nil)", "I(nil)", "error(nil)", "K", "iota0", "true", "\"s\"", "'c'", "1.5", "vArr", "vMap", "Ch"])
+            out.append({"name": "g-build", "args": e, "res": rng.choice(["int", "S", "*S"])})
+    for i, f in enumerate(out):
+        f.update({"name": "%s-%d" % (f["name"], i), "expect": "any", "body": None, "dot": False, "key": "generated-form", "params": "", "generated": True})
+    return out
+
+
 def render(f):
     extra = ["type jimpl struct{}\nfunc (jimpl) M() {}\nfunc (jimpl) N() {}\n"]
     for i, t in enumerate(["unsafe.Pointer", "func() int", "F", "chan int", "map[string]int", "[2]int", "G[int]", "*S", "I", "[]string", "struct{ A int }", "any", "error", "uintptr", "complex128"]):
@@ -237,8 +327,12 @@ def eng_forms(pid, tier, wd, known, replay=None):
         fs = [f for f in fs if f["name"].startswith(("bind", "struct", "fields"))]
     elif pid == "C12":
         fs = [f for f in fs if f["name"].startswith(("struct", "fields"))]
+    if pid in ("C20", "C01"):
+        import random as _random
+        fs = fs + gen_forms(_random.Random(seed() * 7 + 3), 220 if tier == "quick" else 2500)
     if replay is not None and replay.get("input", {}).get("form"):
-        fs = [f for f in fs if f["name"] == replay["input"]["form"]["name"]]
+        rf = replay["input"]["form"]
+        fs = [rf] if rf.get("generated") else [f for f in fs if f["name"] == rf["name"]]
     tools = build_tools()
     root = os.path.join(wd, "forms")
     os.makedirs(root, exist_ok=True)
@@ -278,14 +372,35 @@ def eng_forms(pid, tier, wd, known, replay=None):
             why.append("a documented form was rejected: " + err[:300])
         if f["expect"] == "diag" and rc == 0:
             why.append("an input the rules reject was accepted (exit 0)")
+        if pid == "C01":
+            why = []        # under C01 only the compile oracle below applies
         if why:
             if f["key"] in kf and (panicked or (rc != 0 and not positioned)):
                 knownl.append("%s: %s" % (f["key"], kf[f["key"]].get("what_fails", why[0])))
             else:
                 viol.append(({"property": pid, "kind": "failing-input", "broken": "C20 oracle on the wire binary", "input": {"form": {k: v for k, v in f.items() if not k.startswith("_")}},
                               "rendered_files": render(f), "impl": f["_obs"], "oracle": why, "key": f["key"], "seed": seed()}, True))
+    compiled = 0
+    if pid == "C01":
+        # whatever wire accepted must compile with the generated file standing in for the injector
+        acc = [i for i, rc, err in results if rc == 0 and os.path.exists(os.path.join(root, "f%d" % i, "wire_gen.go"))]
+
+        def build(i):
+            b = sh(["go", "build", "./f%d" % i], cwd=root, env=GOENV, timeout=300)
+            return i, b.returncode, b.stderr
+        with ThreadPoolExecutor(max_workers=16) as ex:
+            for i, brc, berr in ex.map(build, acc):
+                compiled += 1
+                if brc != 0:
+                    f = fs[i]
+                    viol.append(({"property": pid, "kind": "failing-input", "broken": "C01 oracle on the wire binary: accepted form must compile", "input": {"form": {k: v for k, v in f.items() if not k.startswith("_")}},
+                                  "rendered_files": render(f), "impl": {"generated": open(os.path.join(root, "f%d" % i, "wire_gen.go")).read(), "build": berr[-600:]},
+                                  "oracle": ["wire gen succeeded but the package does not compile: " + berr[-300:]], "key": f["key"], "seed": seed()}, True))
+    dist["compiled"] = compiled
     return {"name": "forms", "evaluations": len(fs), "distinct_nontrivial": len(fs), "exhaustive": False,
             "samples": [{"form": fs[min(4, len(fs) - 1)]["name"], "args": fs[min(4, len(fs) - 1)]["args"], "impl": fs[min(4, len(fs) - 1)]["_obs"]}], "traces": len(fs), "stats": {"classes": dist},
             "rule": "one tiny package per spelling of a marker-call argument / result type / injector shape (every object kind, nil, literals, address-of, conversions, builtins, "
-                    "anonymous and generic types, non-literal field names, dot-imported wire), each through `wire gen`: exit 0, or non-zero with a file:line:col inside the package; no panic",
+                    "anonymous and generic types, non-literal field names, dot-imported wire) plus grammar-generated spellings (pointer-valued first arguments over a zoo of types and "
+                    "expression shapes, field-name arguments, value and interface-value expressions, Build arguments), each through `wire gen`: exit 0, or non-zero with a file:line:col "
+                    "inside the package; no panic; under C01 every accepted one is compiled",
             "violations": viol, "known": knownl}
